@@ -36,8 +36,10 @@ class Cell:
 def resolve(t):
     while isinstance(t, Cell) and t.ref is not None:
         t = t.ref
-    if isinstance(t, tuple) and t[0] in ("List", "Dict"):
+    if isinstance(t, tuple) and t[0] in ("List", "Dict", "Opt"):
         return (t[0], resolve(t[1]))
+    if isinstance(t, tuple) and t[0] == "Tup":
+        return ("Tup", tuple(resolve(x) for x in t[1]))
     return t
 
 
@@ -51,8 +53,10 @@ def unify(a, b):
     if isinstance(b, Cell):
         b.ref = a
         return a
-    if isinstance(a, tuple) and isinstance(b, tuple) and a[0] == b[0] and a[0] in ("List", "Dict"):
+    if isinstance(a, tuple) and isinstance(b, tuple) and a[0] == b[0] and a[0] in ("List", "Dict", "Opt"):
         return (a[0], unify(a[1], b[1]))
+    if isinstance(a, tuple) and isinstance(b, tuple) and a[0] == b[0] == "Tup" and len(a[1]) == len(b[1]):
+        return ("Tup", tuple(unify(x, y) for x, y in zip(a[1], b[1])))
     raise Unsupported(f"type mismatch {show_ty(a)} vs {show_ty(b)}")
 
 
@@ -73,6 +77,12 @@ def show_ty(t):
     if isinstance(t, tuple) and t[0] == "List":
         inner = show_ty(t[1])
         return f"List {inner}" if " " not in inner else f"List ({inner})"
+    if isinstance(t, tuple) and t[0] == "Tup":
+        parts = [show_ty(x) for x in t[1]]
+        return " × ".join(q if " " not in q else f"({q})" for q in parts)
+    if isinstance(t, tuple) and t[0] == "Opt":
+        inner = show_ty(t[1])
+        return f"Option {inner}" if " " not in inner else f"Option ({inner})"
     if isinstance(t, tuple) and t[0] == "StrPair":
         inner = show_ty(t[1])
         return f"String × {inner}" if " " not in inner else f"String × ({inner})"
@@ -87,12 +97,13 @@ def show_ty(t):
 
 def ann_type(a):
     if a is None:
-        raise Unsupported("parameter without annotation")
+        return "Int"   # un-annotated parameter: `int` is assumed; a wrong guess makes the generated Lean ill-typed (build failure), never silently different
     s = ast.unparse(a)
     table = {"int": "Int", "bool": "Bool", "str": "Str",
              "Sequence[int]": ("List", "Int"), "list[int]": ("List", "Int"), "Any": ("List", "Int"),
              "Sequence[Any]": ("List", "Int"), "list[list[int]]": ("List", ("List", "Int")),
-             "list[Any]": ("List", "Int"), "Dict[str, list[int]]": ("Dict", ("List", "Int"))}
+             "list[Any]": ("List", "Int"), "Dict[str, list[int]]": ("Dict", ("List", "Int")),
+             "List": ("List", "Int"), "List[int]": ("List", "Int"), "list": ("List", "Int")}
     if s not in table:
         raise Unsupported(f"annotation {s}")
     return table[s]
@@ -157,10 +168,17 @@ class FnTranslator:
                 return [], f"({n.value} : Int)", "Int"
             if isinstance(n.value, str):
                 return [], lean_str(n.value), "Str"
+            if n.value is None:
+                return [], "none", ("Opt", Cell())
             raise Unsupported(f"constant {n.value!r}")
         if isinstance(n, ast.Name):
             if n.id not in env:
                 raise Unsupported(f"name {n.id} is not a local variable here")
+            t = resolve(env[n.id])
+            if isinstance(t, tuple) and t[0] == "Opt" and n.id in getattr(self, "nonnull", ()):
+                # inside `if <name> is not None:` the variable holds a value
+                v = self.fresh()
+                return [f"let {v} ← {self.nm(n.id)}"], v, t[1]
             return [], self.nm(n.id), env[n.id]
         if isinstance(n, ast.UnaryOp):
             b, c, t = self._expr(n.operand, env)
@@ -194,7 +212,20 @@ class FnTranslator:
             return binds, "[" + ", ".join(cs) + "]", ("List", et)
         if isinstance(n, ast.Subscript):
             if isinstance(n.slice, ast.Slice):
-                raise Unsupported("slice")
+                if n.slice.step is not None:
+                    raise Unsupported("slice with a step")
+                b1, c1, t1 = self._expr(n.value, env)
+                unify(t1, ("List", Cell()))
+                binds, parts = list(b1), []
+                for e in (n.slice.lower, n.slice.upper):
+                    if e is None:
+                        parts.append("none")
+                    else:
+                        b, c, t = self._expr(e, env)
+                        unify(t, "Int")
+                        binds += b
+                        parts.append(f"(some {c})")
+                return binds, f"(pySlice {c1} {parts[0]} {parts[1]})", t1
             b1, c1, t1 = self._expr(n.value, env)
             b2, c2, t2 = self._expr(n.slice, env)
             if isinstance(resolve(t1), tuple) and resolve(t1)[0] == "Dict":
@@ -232,6 +263,14 @@ class FnTranslator:
             return binds, "(" + " ++ ".join(parts) + ")", "Str"
         if isinstance(n, ast.Call):
             return self.call(n, env)
+        if isinstance(n, ast.Tuple) and len(n.elts) >= 2:
+            binds, cs, ts = [], [], []
+            for e in n.elts:
+                b, c, t = self._expr(e, env)
+                binds += b
+                cs.append(c)
+                ts.append(t)
+            return binds, "(" + ", ".join(cs) + ")", ("Tup", tuple(ts))
         if isinstance(n, ast.Dict) and not n.keys:
             return [], "[]", ("Dict", Cell())
         if isinstance(n, ast.IfExp):
@@ -286,6 +325,13 @@ class FnTranslator:
                 raise Unsupported("comparison chain whose later operand can raise")
             binds += b
             operands.append((c, t, e))
+        if len(n.ops) == 1 and isinstance(n.ops[0], (ast.Is, ast.IsNot)) and isinstance(n.comparators[0], ast.Constant) \
+                and n.comparators[0].value is None and isinstance(n.left, ast.Name) and n.left.id in env:
+            t = resolve(env[n.left.id])
+            if not (isinstance(t, tuple) and t[0] == "Opt"):
+                raise Unsupported("`is None` on a variable that is never None")
+            c = f"(Option.isSome {self.nm(n.left.id)})"
+            return [], (c if isinstance(n.ops[0], ast.IsNot) else f"(!{c})"), "Bool"
         parts = []
         for i, op in enumerate(n.ops):
             (c1, t1, _), (c2, t2, e2) = operands[i], operands[i + 1]
@@ -506,7 +552,7 @@ class FnTranslator:
             elif isinstance(s, ast.AugAssign):
                 tgt(s.target)
             elif isinstance(s, ast.Expr) and isinstance(s.value, ast.Call) and isinstance(s.value.func, ast.Attribute) \
-                    and s.value.func.attr in ("append", "extend") and isinstance(s.value.func.value, ast.Name):
+                    and s.value.func.attr in ("append", "extend", "remove") and isinstance(s.value.func.value, ast.Name):
                 add(s.value.func.value.id)
             elif isinstance(s, ast.For):
                 for x in self.assigned(s.body):
@@ -564,6 +610,10 @@ class FnTranslator:
                 lines += [ind + x for x in b] + [f"{ind}pure {c}"]
                 self.ret_type = t
                 return lines, env
+            if isinstance(s, ast.Raise) and last:
+                lines.append(f"{ind}none")     # the block ends by raising: no value
+                self.raised_blocks = getattr(self, "raised_blocks", 0) + 1
+                return lines, {**env, "__raises__": True}
             lines += self.stmt(s, env, ind)
         if tail is None:
             raise Unsupported("function without a final return")
@@ -584,6 +634,20 @@ class FnTranslator:
             if len(s.targets) != 1:
                 raise Unsupported("chained assignment")
             t = s.targets[0]
+            if isinstance(t, ast.Tuple) and not isinstance(s.value, ast.Tuple):
+                # `a, b = f(...)`: the value must be a tuple of that arity
+                b, c, ty = self._expr(s.value, env)
+                ty = resolve(ty)
+                if not (isinstance(ty, tuple) and ty[0] == "Tup" and len(ty[1]) == len(t.elts)):
+                    raise Unsupported("destructuring of a non-tuple value")
+                v = self.fresh()
+                L += [ind + x for x in b] + [f"{ind}let {v} := {c}"]
+                proj = v
+                for k, tg in enumerate(t.elts):
+                    lastk = k == len(t.elts) - 1
+                    L += self.assign_to(tg, proj if lastk else f"{proj}.1", ty[1][k], env, ind)
+                    proj = f"{proj}.2"
+                return L
             if isinstance(t, ast.Tuple):
                 if not isinstance(s.value, ast.Tuple) or len(s.value.elts) != len(t.elts):
                     raise Unsupported("tuple assignment from a non-tuple")
@@ -620,12 +684,29 @@ class FnTranslator:
             return []
         if isinstance(s, ast.Pass):
             return []
+        if isinstance(s, ast.Raise):
+            return [f"{ind}pyRaise"]
+        if isinstance(s, ast.Expr) and isinstance(s.value, ast.Call) and isinstance(s.value.func, ast.Attribute) \
+                and s.value.func.attr == "remove" and isinstance(s.value.func.value, ast.Name) and len(s.value.args) == 1:
+            x = s.value.func.value.id
+            if x not in env:
+                raise Unsupported(f"{x}.remove on an unknown variable")
+            b, c, ty = self._expr(s.value.args[0], env)
+            unify(env[x], ("List", ty))
+            return [ind + y for y in b] + [f"{ind}let {self.nm(x)} ← pyRemove {self.nm(x)} {c}"]
         raise Unsupported(f"statement {type(s).__name__}")
 
     def assign_to(self, t, code, ty, env, ind):
         if isinstance(t, ast.Name):
             if t.id in env:
-                unify(env[t.id], ty)
+                cur = resolve(env[t.id])
+                tyr = resolve(ty)
+                if isinstance(cur, tuple) and cur[0] == "Opt" and not (isinstance(tyr, tuple) and tyr[0] == "Opt"):
+                    unify(cur[1], ty)          # a value assigned to a variable that may hold None
+                    code = f"(some {code})"
+                    self.nonnull = set(getattr(self, "nonnull", ())) | {t.id}   # …holds a value from here to the end of the block
+                else:
+                    unify(env[t.id], ty)
             else:
                 env[t.id] = ty
             return [("LET", ind, t.id, code, env[t.id])]
@@ -700,7 +781,11 @@ class FnTranslator:
             var_decl = (var, t_it[1] if items_loop else resolve(t_it)[1])
         state = [x for x in self.assigned(s.body) if x in env and x not in loop_vars]
         body_lines = self.unpack(state, "st", ind2) + pre
-        inner, _ = self.block(s.body, env_body, ind2, tail=lambda e: self.tuple_code(state))
+        saved_nn = set(getattr(self, "nonnull", ()))
+        try:
+            inner, _ = self.block(s.body, env_body, ind2, tail=lambda e: self.tuple_code(state))
+        finally:
+            self.nonnull = saved_nn
         body_lines += inner
         L = [ind + x for x in b_it]
         L.append(("FOLD", ind, state, var_decl[0], c_it, body_lines, env, var_decl[1]))
@@ -711,21 +796,53 @@ class FnTranslator:
         unify(t, "Bool")
         a_then, a_else = self.assigned(s.body), self.assigned(s.orelse)
         state = [x for x in a_then + a_else if x in env]
-        both = [x for x in a_then if x in a_else and x not in env] if s.orelse else []
+
+        def always(stmts, x):
+            """every path through `stmts` that does not raise assigns `x`"""
+            for st_ in stmts:
+                if isinstance(st_, ast.Raise):
+                    return True
+                if isinstance(st_, ast.If):
+                    if st_.orelse and always(st_.body, x) and always(st_.orelse, x):
+                        return True
+                elif x in self.assigned([st_]) and not isinstance(st_, ast.For):
+                    return True
+            return False
+
+        both = [x for x in dict.fromkeys(a_then + a_else) if x not in env and always(s.body, x) and always(s.orelse, x)] if s.orelse else []
         state = list(dict.fromkeys(state + both))
         ind2 = ind + "    "
         envs = []
 
         def branch(stmts):
             e = dict(env)
-            lines, e2 = self.block(stmts, e, ind2, tail=lambda ee: self.tuple_code(state))
+            saved = set(getattr(self, "nonnull", ()))
+            try:
+                lines, e2 = self.block(stmts, e, ind2, tail=lambda ee: self.tuple_code(state))
+            finally:
+                self.nonnull = saved
             envs.append(e2)
             return lines
 
-        then_lines = branch(s.body)
+        nn = None
+        if isinstance(s.test, ast.Compare) and len(s.test.ops) == 1 and isinstance(s.test.ops[0], ast.IsNot) \
+                and isinstance(s.test.left, ast.Name) and isinstance(s.test.comparators[0], ast.Constant) \
+                and s.test.comparators[0].value is None and s.test.left.id not in self.assigned(s.body):
+            nn = s.test.left.id
+        old_nn = set(getattr(self, "nonnull", ()))
+        if nn:
+            self.nonnull = old_nn | {nn}
+        try:
+            then_lines = branch(s.body)
+        finally:
+            self.nonnull = old_nn
         else_lines = branch(s.orelse) if s.orelse else [f"{ind2}pure {self.tuple_code(state)}"]
         for x in both:
-            env[x] = unify(envs[0][x], envs[1][x])
+            cands = [e_[x] for e_ in envs if x in e_]
+            ty_ = cands[0]
+            for c_ in cands[1:]:
+                ty_ = unify(ty_, c_)
+            env[x] = ty_
         L = [ind + x for x in b]
         L.append(("IF", ind, state, c, then_lines, else_lines, env))
         return L
@@ -813,30 +930,36 @@ def translate_module(path, want, sigs, namespace, header, class_name=None):
         body = [n for n in tree.body if isinstance(n, ast.FunctionDef)] + body
     out, report = [header, f"namespace {namespace}", "open Cv.Py", ""], {}
     sigs = dict(sigs)
-    for f in body:
-        if not isinstance(f, ast.FunctionDef):
-            continue
-        if want is not None and f.name not in want:
-            continue
-        tr = FnTranslator(sigs, namespace)
-        try:
-            text, sig = tr.function(f)
-        except Unsupported as e:
-            report[f.name] = f"not translated: {e}"
-            out.append(f"-- NOT TRANSLATED `{f.name}`: {e}\n")
-            continue
-        except Exception as e:  # translator bug: never emit a guess
-            report[f.name] = f"not translated: internal {type(e).__name__}: {e}"
-            out.append(f"-- NOT TRANSLATED `{f.name}`: internal {type(e).__name__}\n")
-            continue
-        for d in tr.extra_defs:
-            out.append(d)
-        doc = f"/-- translated from `{path.split('/')[-1]}:{f.name}` -/\n"
-        k = text.rindex(f"def {f.name} ")
-        out.append(text[:k] + doc + text[k:])
-        sig.lean_name = f"{namespace}.{sig.lean_name}"
-        sigs[f.name] = sig
-        report[f.name] = "translated"
+    todo = [f for f in body if isinstance(f, ast.FunctionDef) and (want is None or f.name in want)]
+    # a function may call one that is defined further down in the module: retry until nothing more translates,
+    # emitting in the order of success (Lean needs a definition before its use)
+    progress = True
+    while todo and progress:
+        progress, rest = False, []
+        for f in todo:
+            tr = FnTranslator(sigs, namespace)
+            try:
+                text, sig = tr.function(f)
+            except Unsupported as e:
+                report[f.name] = f"not translated: {e}"
+                rest.append(f)
+                continue
+            except Exception as e:  # translator bug: never emit a guess
+                report[f.name] = f"not translated: internal {type(e).__name__}: {e}"
+                rest.append(f)
+                continue
+            for d in tr.extra_defs:
+                out.append(d)
+            doc = f"/-- translated from `{path.split('/')[-1]}:{f.name}` -/\n"
+            k = text.rindex(f"def {f.name} ")
+            out.append(text[:k] + doc + text[k:])
+            sig.lean_name = f"{namespace}.{sig.lean_name}"
+            sigs[f.name] = sig
+            report[f.name] = "translated"
+            progress = True
+        todo = rest
+    for f in todo:
+        out.append(f"-- NOT TRANSLATED `{f.name}`: {report[f.name]}\n")
     out.append(f"end {namespace}\n")
     return "\n".join(out), sigs, report
 
@@ -879,21 +1002,31 @@ def dispatcher(*sig_maps):
             pat = " :: ".join(pats + (["rest"] if has_rest else ["[]"])) if pats else ("rest" if has_rest else "[]")
             short = sig.lean_name[len("Cv.PyGen."):]
             cases.append(f'  | "{short}", {pat} => showRes ({sig.lean_name} ' + " ".join(args) + ")")
-    return (HEADER + "import CvGen.PyPerm\nimport CvGen.PyFamilies\nimport CvGen.PyGlobe\n\nnamespace Cv.PyGen\nopen Cv.Py\n\n"
-            "def showInts (l : List Int) : String := \" \".intercalate (l.map toString)\n"
-            "class ShowRes (α : Type) where\n  render : α → String\n"
-            "instance : ShowRes (List Int) := ⟨showInts⟩\n"
-            "instance : ShowRes Bool := ⟨fun b => if b then \"true\" else \"false\"⟩\n"
-            "instance : ShowRes (List (List Int)) := ⟨fun l => \" | \".intercalate (l.map showInts)⟩\n"
-            "instance : ShowRes (List (String × List Int)) := ⟨fun l => \" | \".intercalate (l.map fun p => p.1 ++ \": \" ++ showInts p.2)⟩\n"
-            "instance : ShowRes RawDef := ⟨fun d =>\n"
-            "  \"gens: \" ++ \" | \".intercalate (d.gens.map showInts) ++\n"
-            "  \" ; central: \" ++ (match d.central with | some c => showInts c | none => \"none\") ++\n"
-            "  \" ; names: \" ++ (match d.names with | some c => \" | \".intercalate c | none => \"none\") ++\n"
-            "  \" ; name: \" ++ (match d.name with | some c => c | none => \"none\")⟩\n"
-            "def showRes {α : Type} [ShowRes α] : Option α → String\n  | some a => \"ok ; \" ++ ShowRes.render a\n  | none => \"none\"\n\n"
-            "def dispatch (fn : String) (args : List (List Int)) : String :=\n  match fn, args with\n"
+    return (HEADER + "import CvGen.PyPerm\nimport CvGen.PyFamilies\nimport CvGen.PyGlobe\nimport CvGen.PyRings\n\nnamespace Cv.PyGen\nopen Cv.Py\n\n" + SHOW_LEAN
+            + "def dispatch (fn : String) (args : List (List Int)) : String :=\n  match fn, args with\n"
             + "\n".join(cases) + "\n  | _, _ => \"ERR pygen\"\n\nend Cv.PyGen\n")
+
+
+# canonical rendering of results, in the style of Python's repr (the harness renders the Python value the same way)
+SHOW_LEAN = """class ShowRes (α : Type) where
+  render : α → String
+class ShowFlat (α : Type) where
+  flat : α → String
+instance : ShowRes Int := ⟨fun i => toString i⟩
+instance : ShowRes Bool := ⟨fun b => if b then "True" else "False"⟩
+instance : ShowRes String := ⟨fun s => "'" ++ s ++ "'"⟩
+instance {α : Type} [ShowRes α] : ShowRes (List α) := ⟨fun l => "[" ++ ", ".intercalate (l.map ShowRes.render) ++ "]"⟩
+instance {α : Type} [ShowRes α] : ShowRes (Option α) := ⟨fun o => match o with | some a => ShowRes.render a | none => "None"⟩
+instance (priority := low) {α : Type} [ShowRes α] : ShowFlat α := ⟨ShowRes.render⟩
+instance {α β : Type} [ShowRes α] [ShowFlat β] : ShowFlat (α × β) := ⟨fun p => ShowRes.render p.1 ++ ", " ++ ShowFlat.flat p.2⟩
+instance {α β : Type} [ShowRes α] [ShowFlat β] : ShowRes (α × β) := ⟨fun p => "(" ++ ShowRes.render p.1 ++ ", " ++ ShowFlat.flat p.2 ++ ")"⟩
+instance : ShowRes RawDef := ⟨fun d => "create(" ++ ShowRes.render d.gens ++ ", " ++ ShowRes.render d.names ++ ", " ++
+  ShowRes.render d.central ++ ", " ++ ShowRes.render d.name ++ ")"⟩
+def showRes {α : Type} [ShowRes α] : Option α → String
+  | some a => "ok ; " ++ ShowRes.render a
+  | none => "none"
+
+"""
 
 
 HEADER = """/- REGENERATED from /repo on every run by harness/extract/pylean.py — do not edit. -/
@@ -912,9 +1045,11 @@ def generate(repo, outdir):
     globe_src = f"{repo}/cayleypy/puzzles/globe.py"
     text4, sigs4, rep4 = translate_module(globe_src, ["help_cyclic", "globe_gens", "globe_puzzle"], sigs, "Cv.PyGen.Globe",
                                           HEADER + "import CvGen.PyPerm\n")
-    text3 = dispatcher(sigs, sigs2, sigs4)
+    rings_src = f"{repo}/cayleypy/puzzles/hungarian_rings.py"
+    text5, sigs5, rep5 = translate_module(rings_src, None, {}, "Cv.PyGen.Rings", HEADER)
+    text3 = dispatcher(sigs, sigs2, sigs4, sigs5)
     changed = False
-    for name, text in (("PyPerm.lean", text1), ("PyFamilies.lean", text2), ("PyGlobe.lean", text4), ("PyDispatch.lean", text3)):
+    for name, text in (("PyPerm.lean", text1), ("PyFamilies.lean", text2), ("PyGlobe.lean", text4), ("PyRings.lean", text5), ("PyDispatch.lean", text3)):
         p = f"{outdir}/{name}"
         try:
             old = open(p).read()
@@ -923,7 +1058,7 @@ def generate(repo, outdir):
         if old != text:
             open(p, "w").write(text)
             changed = True
-    return {"permutation_utils": rep1, "graphs_lib": rep2, "globe": rep4, "changed": changed}
+    return {"permutation_utils": rep1, "graphs_lib": rep2, "globe": rep4, "hungarian_rings": rep5, "changed": changed}
 
 
 if __name__ == "__main__":
